@@ -110,6 +110,40 @@ def run(ctx):
             ctx.violate("a schema using extends behaves differently from its expansion on %r" % (bad[0],),
                         {"composed": xa, "expanded": xb, "lines": bad[0], "composed_outcome": bad[1], "expanded_outcome": bad[2]},
                         signature="C11:extends:behaviour")
+    # a derived type that adds a child colliding (or only seemingly colliding) with an inherited one: the composed schema and
+    # its expansion must agree on acceptance — attribute vs inherited attribute (both refused), attribute vs inherited KEY
+    # whose attribute differs (both accepted)
+    for _ in range(n):
+        sd = cfggen.gen_schema(rng)
+        ders = [t for t in sd.types if (not t.abstract) and t.extends]
+        if not ders:
+            continue
+        t = rng.choice(ders)
+        base = [b for b in sd.types if not b.abstract and F._basic_key(b.name) == F._basic_key(t.extends)]
+        if not base or not base[0].children:
+            continue
+        ch = rng.choice(base[0].children)
+        sd2 = copy.deepcopy(sd)
+        t2 = [x for x in sd2.types if x.name == t.name][0]
+        inh_attr = ch.attr or (F._basic_key(ch.name).replace("-", "_") if ch.name not in (None, "*", "+") else None)
+        if inh_attr is None or "." in inh_attr:
+            continue
+        if rng.random() < 0.5:
+            t2.children.append(F.KeyD("zzc11k", "string", attr=inh_attr))           # same attribute as an inherited child
+        elif ch.name not in (None, "*", "+") and ch.attr and ch.attr != F._basic_key(ch.name) and "-" not in ch.name and "." not in ch.name:
+            t2.children.append(F.KeyD("zzc11j", "string", attr=F._basic_key(ch.name)))   # attribute = an inherited KEY name only
+        else:
+            continue
+        ex2 = expand_extends(sd2)
+        xa, xb = F.render_xml(sd2), F.render_xml(ex2)
+        ra, rb = _accepts(xa), _accepts(xb)
+        ctx.evaluations += 1
+        ctx.nontriv(xa)
+        ctx.count("collision-variant:%s" % ra)
+        model_docs.extend([xa, xb])
+        if ra != rb:
+            ctx.violate("a derived type with a child colliding with an inherited one: composed schema %s, its expansion %s" % (ra, rb),
+                        {"composed": xa, "expanded": xb}, signature="C11:extends:collision:%s-vs-%s" % (ra, rb))
     # the Lean model of the schema loader on the composed documents and on their expansions
     elabrun.compare(ctx, "extends", model_docs)
     # directed: a derived type overriding the key type over a base whose fixed key name is not a fixed point of the new key type
@@ -146,6 +180,17 @@ def run(ctx):
     return core.finish(ctx, obligations, discharged, names, RULE,
                        "lake build ZCV.Props.C11 && lake env lean ZCV/Audit/C11.lean",
                        ["expansion is computed by the harness (props/c11.py) from the statement", "package import machinery is outside the model"])
+
+
+def _accepts(xml):
+    import ZConfig
+    try:
+        ZConfig.loadSchemaFile(io.StringIO(xml))
+        return "accepted"
+    except ZConfig.SchemaError:
+        return "schema-error"
+    except Exception as e:
+        return "exc:" + type(e).__name__
 
 
 def _load(xml, url=None):
@@ -319,6 +364,30 @@ def _components(ctx, rng, pk):
                 ctx.violate("a schema importing mutually importing components behaves differently from defining the types in place on %r: %r vs %r" % (t, ra, rb),
                             {"composed": v, "expanded": inpl, "text": t}, signature="C11:import-cycle:behaviour")
                 break
+    # importing from the configuration text: "%import pkg" (once, again in a later load, or through a component that imports pkg)
+    # against one schema object must keep behaving like the schema with the types defined in place
+    pimp = pk.add_component([F.TypeD("pimp", [F.KeyD("k", "integer", default="1")], implements="cab")])
+    pvia = pk.add_component([F.TypeD("pvia", [], implements="cab")], imports=(pimp,))
+    plain = "<schema><abstracttype name='cab'/>%s</schema>" % body
+    inpl2 = ("<schema><abstracttype name='cab'/><sectiontype name='pimp' implements='cab'><key name='k' datatype='integer' default='1'/></sectiontype>"
+             "<sectiontype name='pvia' implements='cab'/>%s</schema>" % body)
+    try:
+        sa, sb = _load(plain), _load(inpl2)
+        seq = [("%%import %s\n<pimp>\nk 3\n</pimp>\n" % pimp, "<pimp>\nk 3\n</pimp>\n"),
+               ("%%import %s\n<pimp/>\n" % pimp, "<pimp/>\n"),
+               ("%%import %s\n<pvia/>\n<pimp/>\n" % pvia, "<pvia/>\n<pimp/>\n"),
+               ("%%import %s\n%%import %s\n<pimp>\nk bad\n</pimp>\n" % (pimp, pimp), "<pimp>\nk bad\n</pimp>\n")]
+        for i, (ta, tb) in enumerate(seq):
+            ra, rb = _behaves(sa, ta), _behaves(sb, tb)
+            ctx.evaluations += 1
+            ctx.nontriv(("config-import", i))
+            if ra != rb:
+                ctx.violate("load %d on one schema object with %%import gives %r; with the types defined in place %r" % (i + 1, ra, rb),
+                            {"composed": plain, "expanded": inpl2, "texts": [x[0] for x in seq], "step": i + 1},
+                            signature="C11:config-import:behaviour")
+                break
+    except Exception as e:
+        ctx.notes.append("config-import scenario failed to set up: %s" % e)
     for v in variants:
         ctx.evaluations += 1
         ctx.nontriv(v)
